@@ -531,5 +531,7 @@ func checkResultUsedAfterErrorTest(c *Ctx) {
 			}
 		}
 	}
-	R.Floor("R15.4:result-uses", n, 1)
+	// no floor: where the aggregator's "nil result with every error" cannot be established (a collector's finish() method, a
+	// constructor) the clause has nothing to say; the count is reported
+	R.Analysed["R15.4_result_uses"] = n
 }
